@@ -11,7 +11,7 @@ import subprocess
 HERE = os.path.dirname(os.path.abspath(__file__))
 VERIF = os.path.dirname(HERE)
 BATTERY = {'C01': 'C01', 'C02': 'C02', 'C03': 'C03', 'C04': 'C04', 'C05': 'C05', 'C06': 'C06', 'C07': 'C07', 'C08': 'C08',
-           'C09': 'C09', 'C10': 'C10', 'C15': 'C15', 'C11': 'C11'}
+           'C09': 'C09', 'C10': 'C10', 'C15': 'C15', 'C11': 'C11', 'C17': 'C17', 'C18': 'C18', 'C19': 'C19'}
 _CACHE = {}
 
 
@@ -58,7 +58,10 @@ def search(prop, run, err, scratch, tier, repo=None):
     count = '300000' if tier == 'quick' else '6000000'
     seed = os.environ.get('VERIF_SEED', '1') or '1'
     for sd in (seed, str(int(seed) + 7)):
-        p = subprocess.run([exe, bat, sd, count], capture_output=True, text=True, timeout=600)
+        try:
+            p = subprocess.run([exe, bat, sd, count if bat not in ('C17', 'C18', 'C19') else str(int(count) // 10)], capture_output=True, text=True, timeout=300)
+        except subprocess.TimeoutExpired:
+            return None
         line = p.stdout.strip().split('\n')[-1] if p.stdout.strip() else ''
         if line.startswith('{'):
             j = json.loads(line)
